@@ -188,6 +188,9 @@ def r3(ctx):
                 t_ = {chr(k): (chr(v) if isinstance(v, int) else v) for k, v in tab.items()}
                 if all(t_.get(k) == v for k, v in COMP.items()):
                     comp ^= 1
+                    # a table that knows only the upper-case letters complements a soft-masked (lower-case) reference only after it was upper-cased
+                    if not upper and not all(t_.get(k.lower(), '').upper() == v for k, v in COMP.items()):
+                        case_gap.append(True)
                 elif all(t_.get(k, k) == k for k in COMP):
                     pass
                 else:
@@ -196,8 +199,13 @@ def r3(ctx):
             else:
                 return None
         return comp, rev, upper
+    case_gap = []
     sg = summary(chains['G'][1]) if 'G' in chains else None
+    gap_g = bool(case_gap)
     sc = summary(chains['C'][1]) if 'C' in chains else None
+    ctx.emit('C14-R3', not case_gap, TAPS, chains['G'][2] if 'G' in chains else f, 'the reference window is upper-cased before it is complemented (or the complement table covers lower case)' if not case_gap else
+             f'the {"G" if gap_g else "C"} arm complements the fetched window with a table that only knows upper-case letters BEFORE upper-casing it: lower-case (soft-masked) reference bases are '
+             f'not complemented, the context looked up is not the context of the reference', key='complement-after-upper', what='position_to_context: soft-masked reference bases are not complemented')
     okg2 = sg == (1, 1, True) and 'G' in fetches and chains['G'][0] is fetches['G'][2]
     okc2 = sc == (0, 0, True) and 'C' in fetches and chains['C'][0] is fetches['C'][2]
     ctx.emit('C14-R3', okg2, TAPS, chains['G'][2] if 'G' in chains else f, f'G context = fetched window through {chains["G"][1] if "G" in chains else None}: complemented once and reversed once (got parity {sg})', key='revcomp')
@@ -424,7 +432,7 @@ def r5(ctx):
     ctx.counters['abstract_cases'] += sub.counters['abstract_cases']
     # ... computed from the current fragments (C13-R6), from arbitrated fragment calls (C13-R7), with the safe-span request applied as given (C13-R8)
     from ..core import include
-    include(ctx, C13, [C13.r6, C13.r7, C13.r8], 'C14-R5')
+    include(ctx, C13, [C13.r2, C13.r6, C13.r7, C13.r8], 'C14-R5')
 
 
 META = {
